@@ -1,6 +1,6 @@
 SPECIFICATION GenSpec
 CONSTANTS
-  Lens = {0, 1, 125, 126, 127, 255, 256, 65535, 65536, 65537, 1000000, 16777216}
+  Lens = {0, 1, 125, 126, 127, 255, 256, 65535, 65536, 65537, 70000, 16777216}
   Ops = {0, 1, 2, 8, 9, 10}
   Rsvs = {0, 4}
 INVARIANT RoundTrip
